@@ -916,7 +916,7 @@ Inv_C16_NoRepull ==
 \* after an error-free pass over an unpaused Package with a valid spec (unchanged since the pass read it) the
 \* ObjectDeployment template — slices inlined in order — equals a fresh render of that spec
 Inv_C16_TemplateIsRender ==
-    (lw.valid /\ W.ev = "C16Template" /\ W.args.specValid /\ ~W.args.passErr /\ PR.hasSnap /\ ~PR.snap.cr.paused /\ ~PR.apiErr
+    (lw.valid /\ W.ev = "C16Template" /\ W.args.specValid /\ ~W.args.passErr /\ PR.hasSnap /\ ~PR.snap.cr.paused
        /\ store[PR.target].exists /\ store[PR.target].cr.tmplHash = PR.snap.cr.tmplHash /\ ~store[PR.target].cr.paused
        /\ ~PR.snap.deleting /\ PR.statusWritten
        /\ (PR.pulled = "valid" \/ (PR.pulled = "" /\ PR.snap.cr.hash # "" /\ hist.unpacked[PR.target] = PR.snap.cr.tmplHash)))
